@@ -392,16 +392,16 @@ func intersectionExact(a0, a1, b0, b1 Point) Point {
 		aNorm := Point{aNormP.Vector()}
 		bNorm := Point{bNormP.Vector()}
 		if OrderedCCW(b0, a0, b1, bNorm) && a0.Cmp(x) == -1 {
-			return a0
+			x = a0.Vector
 		}
 		if OrderedCCW(b0, a1, b1, bNorm) && a1.Cmp(x) == -1 {
-			return a1
+			x = a1.Vector
 		}
 		if OrderedCCW(a0, b0, a1, aNorm) && b0.Cmp(x) == -1 {
-			return b0
+			x = b0.Vector
 		}
 		if OrderedCCW(a0, b1, a1, aNorm) && b1.Cmp(x) == -1 {
-			return b1
+			x = b1.Vector
 		}
 	}
 
